@@ -654,7 +654,12 @@ def _report(ctx, sig, msg, rep):
     st, sig2, msg2 = CASES[rep["kind"]](rep)
     _cleanup()
     if st != "bad" or sig2 != sig:
-        raise HarnessError(f"case did not fail again: {sig} -> {st} {msg2}")
+        # The enumeration is deterministic; a case that fails inside it but
+        # not when executed alone depends on what was loaded or written
+        # earlier in the same process (e.g. a cache keyed on a file path).
+        sig = sig + "|only after earlier cases in the same process"
+        msg = ("[passes when re-executed alone: the result depends on "
+               "earlier loads/writes in the same process] " + msg)
     ctx.violation(sig, msg, rep)
 
 
